@@ -40,7 +40,7 @@ CHECKS = {
     ),
     'C04': dict(
         pkg='./c04', test='TestC04', level='fault_enumeration', helpers={'vdriver': './cmd/vdriver'},
-        quick=dict(shards=4, checks=60, extra=[dict(test='TestC04Client', checks=20, shards=4)]),
+        quick=dict(shards=4, checks=60, extra=[dict(test='TestC04Client', checks=30, shards=4)]),
         thorough=dict(shards=12, checks=1500, budget_s=3000, fuzz=[dict(target='FuzzDeserialize', time='90s', wall=600)], extra=[dict(test='TestC04Client', checks=400, shards=4)]),
         level_text=('Every generated valid packet is subjected to the enumerated fault list: all single-bit flips (exhaustive for packets '
                     '<= 256 bytes), all truncation lengths, extension, re-keying, reflection, garbage bodies, attacker-with-key declared '
@@ -51,7 +51,7 @@ CHECKS = {
               'each base is evaluated under every fault of the list above; a case is (receiver key, bytes handed to DeserializeEncrypted / '
               'DeserializeUnencrypted). Non-trivial: the fault changes at least one byte; distinct by hash of (key, bytes).'),
         must_hit=['flip:keyid', 'flip:msgkey', 'flip:ciphertext', 'trunc:8..23-with-valid-keyid', 'trunc:<8', 'trunc:>=24', 'attacker:L<0',
-                  'attacker:L-just-above', 'attacker:L-huge', 'attacker:L-in-range', 'rekeyed', 'garbage', 'parity:low=10,negative=true', 'parity:low=00,negative=false', 'plain:parity:low=10,negative=true', 'plain:bad-length', 'plain:truncated-header', 'client:forged-plain-result', 'client:corrupted-result'],
+                  'attacker:L-just-above', 'attacker:L-huge', 'attacker:L-in-range', 'rekeyed', 'garbage', 'parity:low=10,negative=true', 'parity:low=00,negative=false', 'plain:parity:low=10,negative=true', 'plain:bad-length', 'plain:truncated-header', 'client:forged-plain-result', 'client:corrupted-result'] + ['client:mangled:' + k for k in ('flip', 'truncate', 'append', 'garbage', 'rekey', 'reflect', 'evenid', 'badlen')],
         assumptions=['the reference acceptance decision reads the statement literally: key id, msg_key over header+declared body, 0<=L<=data, server parity; '
                      'an attacker-with-key packet that satisfies all four is accepted (the statement allows it)'],
     ),
